@@ -201,8 +201,7 @@ func jsonParsley(p parsley.Parser, doc []byte, before []int) (got interface{}, e
 		fs.AddFile(text.NewFile(fmt.Sprintf("p%d", i), make([]byte, n)))
 	}
 	f := text.NewFile("f", doc)
-	fs.AddFile(f)
-	rd := text.NewReader(f)
+	rd := placeFile(fs, f, len(doc)%2 == 1)
 	got, err = parsley.Evaluate(parsley.NewContext(fs, rd), p)
 	// the same File evaluated again (a second pass over one document): nothing may have changed
 	got2, err2 := parsley.Evaluate(parsley.NewContext(fs, text.NewReader(f)), p)
